@@ -185,4 +185,92 @@ def runSchedule (cap : Nat) (taken : List Nat) (ids : List Nat) (checkUnderLock 
   " ".intercalate pcs ++ " | " ++ ",".intercalate ((sortN (fresh sc.sys.table)).map toString) ++ " | " ++
     ",".intercalate ((sortN (fresh sc.sys.disk)).map toString)
 
+/-! ### server processes
+
+A registration thread lives in a (process, goroutine) pair: `proc t` is the server process of thread `t`.
+Nothing in `Sys` belongs to a process: `sem` is the SysV semaphore (a kernel object, one per key), `table`
+is the user-id index in the shared-memory segment every server attaches, `disk` is the file .PASSWDS. So
+the step of a thread is the same whatever process it lives in — `stepP` takes the assignment and does
+not look at it (`Props.stepP_ignores_proc`), and the reachable states are those of `Reachable`
+(`Props.reachableP_iff`).
+
+A server process that starts up runs cmbbs.PasswdInit (main_init): the semaphore exists already (the first
+server created it and set it to 1), so PasswdInit only looks up its identifier — semget without IPC_CREAT —
+and leaves its value, hence the holder and the waiters, alone: `procInit` is the identity on `Sys`. -/
+
+def stepP (_proc : Nat → Nat) (P : Params) (s : Sys) (t : Nat) : Option Sys := step P s t
+
+def procInit (s : Sys) (_q : Nat) : Sys := s
+
+inductive ReachableP (proc : Nat → Nat) (P : Params) (tbl : Nat → Option Nat) : Sys → Prop where
+  | init : ReachableP proc P tbl (init tbl)
+  | step {s s' : Sys} (t : Nat) : ReachableP proc P tbl s → stepP proc P s t = some s' → ReachableP proc P tbl s'
+  | procInit {s : Sys} (q : Nat) : ReachableP proc P tbl s → ReachableP proc P tbl (procInit s q)
+
+/-! ### schedule-level semantics with several waiters (ops `regp`)
+
+Schedule elements:  e < 50        release thread e to its next hook point
+                    50 ≤ e < 100  the kernel hands the posted semaphore to waiter e - 50 (observed by the harness)
+                    100 ≤ e       a fresh server process starts and runs PasswdInit
+A release into seg 1 while the semaphore is taken blocks the thread, whether or not others wait already
+(they may sit in the same process or in another one). When the holder posts and exactly one thread waits,
+that one proceeds; with two or more the kernel picks, the post leaves them all blocked and the `wake`
+element that follows names the one that got the semaphore — the others stay blocked. -/
+
+inductive Ev where
+  | rel (t : Nat)
+  | wake (t : Nat)
+  | start (q : Nat)
+  deriving DecidableEq, Repr
+
+def decodeEv (e : Nat) : Ev :=
+  if e < 50 then .rel e else if e < 100 then .wake (e - 50) else .start (e - 100)
+
+def nBlocked (n : Nat) (sc : Sched) : Nat := ((List.range n).filter (fun u => sc.blocked u)).length
+
+def releaseP (P : Params) (n : Nat) (sc : Sched) (t : Nat) : Sched :=
+  if sc.blocked t then sc
+  else match sc.sys.pc t with
+    | .start => match step P sc.sys t with
+        | some s' => { sc with sys := s' }
+        | none => sc
+    | .checked => match step P sc.sys t with
+        | some s' => { sc with sys := s' }
+        | none => { sc with blocked := fun v => if v = t then true else sc.blocked v }
+    | .locked => { sc with sys := runWhile P t 6 sc.sys }
+    | .unlocking _ => match step P sc.sys t with
+        | some s' => if nBlocked n sc ≤ 1 then wake P n { sc with sys := s' } else { sc with sys := s' }
+        | none => sc
+    | _ => sc
+
+/-- the waiter `u` obtains the semaphore (its semop returns): enabled only while nobody holds it. -/
+def wakeTid (P : Params) (sc : Sched) (u : Nat) : Sched :=
+  if sc.blocked u then
+    match step P sc.sys u with
+    | some s' => { sys := s', blocked := fun v => if v = u then false else sc.blocked v }
+    | none => sc
+  else sc
+
+def startProc (sc : Sched) (q : Nat) : Sched := { sc with sys := procInit sc.sys q }
+
+def applyEv (P : Params) (n : Nat) (sc : Sched) (e : Nat) : Sched :=
+  match decodeEv e with
+  | .rel t => releaseP P n sc t
+  | .wake u => wakeTid P sc u
+  | .start q => startProc sc q
+
+def runScheduleP (cap : Nat) (taken : List Nat) (ids : List Nat) (checkUnderLock : Bool) (sched : List Nat) : String :=
+  let tbl : Nat → Option Nat := fun k => match taken[k]? with
+    | some 0 => none
+    | some a => some a
+    | none => none
+  let P : Params := { cap := cap, idOf := fun t => ids.getD t 0, pick := pickLowest cap, checkUnderLock := checkUnderLock }
+  let n := ids.length
+  let sc := sched.foldl (applyEv P n) { sys := init tbl, blocked := fun _ => false }
+  let pcs := (List.range n).map (fun t => showPC (sc.blocked t) (sc.sys.pc t))
+  let fresh (f : Nat → Option Nat) := (List.range cap).filterMap (fun k => if (tbl k).isSome then none else f k)
+  let sortN (l : List Nat) := (l.toArray.qsort (· < ·)).toList
+  " ".intercalate pcs ++ " | " ++ ",".intercalate ((sortN (fresh sc.sys.table)).map toString) ++ " | " ++
+    ",".intercalate ((sortN (fresh sc.sys.disk)).map toString)
+
 end PttVerif.C15
